@@ -37,12 +37,6 @@ func init() {
 		Race:    true,
 		Workers: 4,
 		Run:     runC20,
-		Finish: func(a *core.Agg) string {
-			if a.Counters["cooperation_timeout_unexplained"] > 0 {
-				return "a nested / cooperating application did not finish within the watchdog and the goroutine dump shows no lock wait inside the library"
-			}
-			return ""
-		},
 	})
 }
 
@@ -246,18 +240,20 @@ func runC20(c *core.Ctx) {
 		return drive.OutcomeKey(pr.p, drive.Run(app, pr.argv))
 	}
 	waitOr := func(what string, done chan struct{}) bool {
-		select {
-		case <-done:
-			return true
-		case <-time.After(20 * time.Second): // generous: the operations take microseconds
-			buf := make([]byte, 1<<20)
-			stacks := string(buf[:runtime.Stack(buf, true)])
-			if where := core.BlockedInLibrary(stacks); where != "" {
-				c.Abort(what + ": blocked on a lock inside the library (" + where + ")")
-			} else {
-				c.Inc("cooperation_timeout_unexplained")
+		for {
+			select {
+			case <-done:
+				return true
+			case <-time.After(20 * time.Second): // only decides when to look; the operations take microseconds
+				buf := make([]byte, 1<<20)
+				stacks := string(buf[:runtime.Stack(buf, true)])
+				if where := core.BlockedInLibrary(stacks); where != "" {
+					c.Abort(what + ": blocked on a lock inside the library (" + where + ")")
+					return false
+				}
+				// slow machine, or stuck outside the library: keep waiting (the worker's stall detector has the last word)
+				c.Inc("cooperation_slow_waits")
 			}
-			return false
 		}
 	}
 	// (i) an application that ends badly (its help lists a sub-command whose spec is ill-formed: Run panics, the caller
